@@ -8,6 +8,10 @@ import (
 	"github.com/gobwas/ws"
 )
 
+// maxPayloadPrealloc limits the memory allocated on the strength of a length
+// announced in a frame header alone.
+const maxPayloadPrealloc = 64 * 1024
+
 // Message represents a message from peer, that could be presented in one or
 // more frames. That is, it contains payload of all message fragments and
 // operation code of initial frame for this message.
@@ -42,20 +46,15 @@ func ReadMessage(r io.Reader, s ws.State, m []Message) ([]Message, error) {
 	if err != nil {
 		return m, err
 	}
-	var p []byte
-	if h.Fin {
-		// No more frames will be read. Use fixed sized buffer to read payload.
-		p = make([]byte, h.Length)
-		// It is not possible to receive io.EOF here because Reader does not
-		// return EOF if frame payload was successfully fetched.
-		// Thus we consistent here with io.Reader behavior.
-		_, err = io.ReadFull(&rd, p)
-	} else {
-		// Frame is fragmented, thus use ioutil.ReadAll behavior.
-		var buf bytes.Buffer
-		_, err = buf.ReadFrom(&rd)
-		p = buf.Bytes()
+	// Read until the Reader reports the end of the message. The length
+	// announced by the header is used only as a bounded hint for the buffer
+	// size: it is not trusted to allocate memory up front.
+	var buf bytes.Buffer
+	if h.Fin && h.Length < maxPayloadPrealloc {
+		buf.Grow(int(h.Length) + bytes.MinRead)
 	}
+	_, err = buf.ReadFrom(&rd)
+	p := buf.Bytes()
 	if err != nil {
 		return m, err
 	}
